@@ -16,6 +16,7 @@ func init() {
 			E11MatrixComposers(c, r)     // the Matrix helpers every view and transformation is composed with
 			E8Units(c, r)                // degrees and radians: every property that handles arcs or rotations
 			E11ArcRotationRewritten(c, r)
+			E11ArcShortcutOrientation(c, r)
 			E11AngleRangeNormalised(c, r)
 			E2CarriedShadow(c, r)
 			E3ArcShortcut(c, r)
@@ -672,9 +673,9 @@ func init() {
 		Explanation: "Decides one clause for every path and matrix: the rotation of elliptical arcs is handled in consistent angle units through Transform, Matrix.Rotate, Join, Reverse, the scanners and the arc helpers — a whole-package unit inference (radians/degrees) over SSA finds no value used in both units, the rotation slot of arc records is radians everywhere it is read or written, and the documented units of ArcTo/Arc/Matrix.Rotate (degrees) are reproduced. A missing or doubled conversion is invisible to tests whose arcs have rotation 0. NOT decided: the matrix algebra (Mul/Dot/Inv/T/Decompose), the eigen-decomposition in Transform, the sweep flip under reflection, which points a transformed segment contains.",
 		Assumptions: []string{"unit seeds: math trigonometric functions take/return radians; x*180/π and x*π/180 are the only conversions", "values multiplied by non-constant factors get a fresh unit variable (no false conflicts from scalars)"},
 		Run: func(c *core.Ctx, r *core.Report) {
-			E11ArcShortcutOrientation(c, r)
 			E3BoundingBoxes(c, r) // Rect.Transform and the hull methods: Fit, Clip and the views map boxes with them
 			E11ArcRotationRewritten(c, r)
+			E11ArcShortcutOrientation(c, r)
 			E11SVGMatrixOrder(c, r)
 			E8Units(c, r)
 			E11SweepFlip(c, r)
